@@ -22,8 +22,8 @@ structure St (Text Res : Type) where
   resolved : Nat → Option Res
   /-- per document: the captured texts of the publish goroutines still in flight, in start order -/
   pending : Nat → List Text
-  /-- ghost: a task for this document was started while another one was still in flight, and
-      no task has been started on an idle document since -/
+  /-- ghost: a task for this document was started while another one was still in flight, or a
+      task of it ended without storing, and no task has been started on an idle document since -/
   overlap : Nat → Bool
 
 inductive Ev (Text : Type)
@@ -31,6 +31,9 @@ inductive Ev (Text : Type)
   | change (u : Nat) (t : Text)
   /-- the `i`-th in-flight task of document `u` stores its result (any order: the scheduler) -/
   | finish (u : Nat) (i : Nat)
+  /-- the `i`-th in-flight task of document `u` ends WITHOUT storing: publishDiagnostics returns
+      before the load when it finds `Features.Diagnostics` switched off -/
+  | skip (u : Nat) (i : Nat)
 
 variable {Text Res : Type}
 
@@ -47,6 +50,12 @@ def step (load : Text → Res) (σ : St Text Res) : Ev Text → St Text Res
     | some t =>
       { σ with resolved := upd σ.resolved u (some (load t)),
                pending := upd σ.pending u ((σ.pending u).eraseIdx i) }
+  | .skip u i =>
+    match (σ.pending u)[i]? with
+    | none => σ
+    | some _ =>
+      { σ with pending := upd σ.pending u ((σ.pending u).eraseIdx i),
+               overlap := upd σ.overlap u true }
 
 def run (load : Text → Res) (es : List (Ev Text)) : St Text Res := es.foldl (step load) St.init
 
@@ -70,8 +79,10 @@ def readsResolved (k : String) : Bool :=
   k == "completion" || k == "hover" || k == "definition" || k == "references"
 
 /-- Known finding `stale-resolved`: a handler that reads `Server.resolved`, no resolved journal
-    from the workspace, and the document not settled. -/
-def staleGuard (k : String) (ws : Bool) (inflight : Nat) (overlap : Bool) : Bool :=
-  readsResolved k && !ws && (inflight > 0 || overlap)
+    from the workspace, and the document not settled (a task of it in flight; or a task of it
+    was started while another one was in flight; or a task may have ended without storing
+    because a configuration with diagnostics switched off had been sent). -/
+def staleGuard (k : String) (ws : Bool) (inflight : Nat) (overlap diagOff : Bool) : Bool :=
+  readsResolved k && !ws && (inflight > 0 || overlap || diagOff)
 
 end HL.Bg
